@@ -360,13 +360,13 @@ def clash_items():
 
 MATRIX_TYPES = ['Int32', 'UInt64', 'Int64(min_value=0)', 'Float32', 'Float64', 'Float64(min_value=0, max_value=1)', 'String', 'String(min_length=2, max_length=3)',
                 'String(pattern="[a-c]+")', 'Bytes', 'Boolean', 'Timestamp("%Y")', 'List(Int32)', 'List(String, min_items=1, max_items=2)', 'Map(String, Int32)',
-                'Map(String(min_length=2), List(Int32))', 'Ms', 'Mu', 'Mtree', 'Int32?', 'Ms?', 'List(Ms)', 'List(Int32?)', 'Aint', 'Anull', 'Alist', 'Astruct', 'AnullS', 'Void']
+                'Map(String(min_length=2), List(Int32))', 'Map(String(pattern="[a-c]+"), Int32)', 'Map(String(max_length=1), Int32?)', 'Map(String, Map(String(min_length=2), Int32))', 'AkeyMap', 'Ms', 'Mu', 'Mtree', 'Int32?', 'Ms?', 'List(Ms)', 'List(Int32?)', 'Aint', 'Anull', 'Alist', 'Astruct', 'AnullS', 'Void']
 MATRIX_LITERALS = ['0', '-1', '5', '1' + '0' * 400, '-1' + '0' * 400, '1' * 4300, '1' * 4301, '-' + '1' * 4301, '1' * 5000 + '.5', '1e' + '9' * 5000, '1.5', '-0.0', '1e400', '1e-400', '2e10', '""', '"x"', '"ab"', '"YWJj"', '"2000"', '"not a date"',
-                   'true', 'false', 'null', '[]', '[1]', '["a"]', '[[1]]', '[null]', '[1, "a"]', '{}', '{"ab": 1}', '{"a": 1}', '{"ab": [1]}', '{1: 2}', '{"ab": null}',
+                   'true', 'false', 'null', '[]', '[1]', '["a"]', '[[1]]', '[null]', '[1, "a"]', '{}', '{"ab": 1}', '{"a": 1}', '{"ab": [1]}', '{"a": [1]}', '{"zz": 1}', '{"k": {"a": 1}}', '{"k": {"ab": 1}}', '{1: 2}', '{"ab": null}',
                    'mv', 'mw', 'ms', 'mn', 'mu', 'nope', 'default', 'Ms', 'Int32']
 MATRIX_PREAMBLE = ('namespace mx\n\nstruct Ms\n    a Int32\n    b String = "d"\n\n    example default\n        a = 1\n\nunion Mu\n    mv\n    mw Int32\n    ms Ms\n    mn Ms?\n    mu Mu2\n\n    example default\n        mw = 3\n\n'
                    'struct Mtree\n    union\n        leaf Mleaf\n    t Int32\n\n    example default\n        leaf = default\n\nstruct Mleaf extends Mtree\n    l Int32\n\n    example default\n        t = 1\n        l = 2\n\n'
-                   'union Mu2\n    m2v\n\nalias Aint = Int32\nalias Anull = Int32?\nalias Alist = List(Int32)\nalias Astruct = Ms\nalias AnullS = Ms?\n\n')
+                   'union Mu2\n    m2v\n\nalias Aint = Int32\nalias Anull = Int32?\nalias Alist = List(Int32)\nalias Astruct = Ms\nalias AnullS = Ms?\nalias AkeyMap = Map(String(min_length=2), Int32)\n\n')
 BAD_PATTERNS = ['a{99999999999}', '(', ')', '[', '*', '+a', 'a**', '(?P<x>a)(?P<x>b)', '\\\\', 'a{2,1}', '(?i', '\\\\1', '(?P=nope)', '[z-a]', '(?<=a+)b', '\\\\p{L}', '(?#', 'a{,}', '\\\\N{nope}',
                 '(' * 120 + 'a' + ')' * 120, '(?:' * 300 + 'a' + ')' * 300, '(a*)*b', '\\\\x', '\\\\u12', '[[:alpha:]]', '(?a)(?u)x', '(?L)x', '']
 HUGE = ['1' + '0' * 400, '-1' + '0' * 400, '1' * 4300, '1' * 4301, '-' + '1' * 4301, '1' * 5000 + '.5', '1e400', '-1e400', '1e-400', '0', '-1', '1.5', '"3"', 'true', 'null']
@@ -415,6 +415,7 @@ def literal_matrix_items(tier):
                       ('example-ref-alias-list', 'struct T\n    x Int32\n    example default\n        x = 1\nalias AT = List(T)\nstruct S\n    t AT\n    example default\n        t = [default]\n'),
                       ('example-ref-alias-map', 'struct T\n    x Int32\n    example default\n        x = 1\nalias AT = Map(String, T)\nstruct S\n    t AT\n    example default\n        t = {"k": default}\n'),
                       ('example-ref-missing-label', 'struct T\n    x Int32\n    example default\n        x = 1\nstruct S\n    t T\n    example other\n        t = other\n'),
+                      ('map-key-alias', 'alias Akey = String(min_length=2)\nstruct S\n    m Map(Akey, Int32)\n    example default\n        m = {"a": 1}\n'),
                       ('example-self-ref', 'struct S\n    t S?\n    example default\n        t = default\n')):
         yield 'matrix:refs:%s' % lab, [('m.stone', 'namespace mx\n\n' + text)]
     for n in (2, 3, 4):
